@@ -38,12 +38,22 @@ def check_history(case, ctx):
             det.update(yt, yp)
         obs = (det.drift_state, tuple(cat.norm_recs(det.retraining_recs)), det.samples_since_reset)
         all_states = list(det.all_drift_states)
+        probe = float(np.random.random())  # generator position after the call = number of Bernoulli draws consumed
 
         def stepfn(m, ch):
             np.random.seed(base + i)
-            return m.step(yt, yp, ch)
+            o = m.step(yt, yp, ch)
+            o["probe"] = float(np.random.random())
+            return o
 
         verdict, outs = fk.advance(stepfn, lambda o: (o["state"], o["recs"], o["n"]) == obs)
+        if verdict == "ok" and all(o["probe"] != probe for o in outs):
+            raise Violation(
+                "lfr-random-draws",
+                f"LFR({p}) sample {i}: the update did not consume the documented random numbers (num_mc x N Bernoulli draws per newly simulated (rate, N) pair, none on a cache hit)",
+                detector="LinearFourRates",
+                case=_trim(case, i),
+            )
         if verdict == "mismatch":
             raise Violation(
                 "lfr-mismatch",
